@@ -48,3 +48,20 @@ def Chain2(x: int, fail: bool = False) -> int:
     a = workflow.add(Inc(x=x, tag=1), name="a")
     b = workflow.add(Inc(x=a.out, tag=2, fail=fail), name="b")
     return b.out
+
+
+@python.define
+def Flaky(x: int, tag: int = 0) -> int:
+    """fails when vf.rec.FLAGS['fail'] is set (failure that is not part of the inputs)"""
+    import vf.rec as R
+    R.rec("Flaky", x, tag)
+    if R.FLAGS.get("fail"):
+        raise ValueError("Flaky failed")
+    return x * 10 + tag
+
+
+@workflow.define
+def FlakyWf(x: int) -> int:
+    a = workflow.add(Flaky(x=x, tag=1), name="a")
+    b = workflow.add(Flaky(x=a.out, tag=2), name="b")
+    return b.out
